@@ -969,6 +969,13 @@ class VMDKInspector(FileInspector):
 
     def region_complete(self, region_name):
         if region_name == 'descriptor':
+            region = self.region('descriptor')
+            if region.offset == 0 and region.data.startswith(b'KDMV'):
+                # This is the provisional region at the start of the file
+                # and what it holds is a sparse header, not a text
+                # descriptor. The embedded descriptor is parsed once the
+                # header has been validated and told us where it is.
+                return
             self._parse_descriptor()
 
     def _parse_descriptor(self):
